@@ -14,8 +14,7 @@ Variable c : cfg.
 Definition wl (t : text) : text := write_line_no_wrap (autotrim c) (cols c) t.
 
 (* the hypothesis "texts fit": well-formed, and not wider than the terminal after the trim *)
-Definition text_ok (t : text) : Prop :=
-  wf_text t = true /\ length (visible (wl t)) + (if dec tc then 1 else 0) <= width tc.
+Definition text_ok (t : text) : Prop := wf_text t = true /\ length (visible (wl t)) <= width tc.
 Definition ups_ok (ups : list (nat * text)) : Prop := forall u, In u ups -> text_ok (snd u).
 
 (* what each line shows after the updates ups, starting from d *)
@@ -29,7 +28,8 @@ Record Inv (s : tw) (sc : scr) (F : nat -> text) : Prop := mkInv {
   inv_rows : forall l, nth l (rows sc) [] = F l;
   inv_clear : tw_clear s = true;
   inv_hide : tw_hide s = true;
-  inv_max : tw_cursor s <= tw_max s }.
+  inv_max : tw_cursor s <= tw_max s;
+  inv_len : length (rows sc) <= S (tw_max s) }.     (* nothing below the lowest line is touched *)
 
 Lemma wl_nil : wl [] = [].
 Proof. unfold wl, write_line_no_wrap. destruct (autotrim c); reflexivity. Qed.
@@ -43,6 +43,12 @@ Proof.
 Qed.
 
 (* ---------------------------------------------------------------- one WriteForLine *)
+Lemma ecol_0 : forall s, ccol s = 0 -> ecol tc s = 0.
+Proof.
+  intros s H. unfold ecol. rewrite H. destruct (dec tc); cbn [andb]; [|reflexivity].
+  destruct (Nat.leb_spec (width tc) 0); lia.
+Qed.
+
 Lemma write_step : forall s sc F line t s' seg,
   Inv s sc F -> text_ok t -> tw_write c s line t = (s', seg) ->
   exists sc', run tc (sc, Ground) (render seg) = (sc', Ground) /\
@@ -51,17 +57,17 @@ Lemma write_step : forall s sc F line t s' seg,
     ccol sc' = length (visible (wl t)).
 Proof.
   intros s sc F line t s' seg I [Hwf Hfit] W.
-  destruct I as [Ir Iv Ih Irows Ic Ihd Im].
+  destruct I as [Ir Iv Ih Irows Ic Ihd Im Il].
   unfold tw_write, go_to in W. cbn [tw_cursor tw_hidden tw_max tw_clear tw_hide] in W.
   rewrite Ic, Ihd in W. cbn [andb orb] in W. inversion W; subst s' seg; clear W.
   set (a := line - tw_cursor s). set (b := tw_cursor s - line).
   set (v := visible (wl t)) in *.
   assert (Hok : Forall cmd_ok
             ((if negb (tw_hidden s) then [HideCur] else []) ++
-             (repeat LF a ++ repeat (Up 1%N) b ++ [CR]) ++ [Text (wl t)] ++ [EraseEOL])).
+             (repeat LF a ++ repeat (Up 1%N) b ++ [CR]) ++ [EraseEOL] ++ [Text (wl t)])).
   { apply Forall_app. split; [destruct (negb (tw_hidden s)); repeat constructor|].
     apply Forall_app. split; [apply goto_cmd_ok|].
-    constructor; [apply wlnw_wf; exact Hwf | repeat constructor]. }
+    constructor; [exact Logic.I|]. constructor; [apply wlnw_wf; exact Hwf | constructor]. }
   eexists. split; [exact (run_render tc _ sc Hok)|].
   rewrite !fold_left_app.
   set (sc1 := fold_left (interp tc) (if negb (tw_hidden s) then [HideCur] else []) sc).
@@ -72,31 +78,39 @@ Proof.
   set (sc2 := mkscr (rows sc1) (crow sc1 + a - b) 0 (cvis sc1) (hides sc1)).
   assert (Hrow2 : crow sc2 = line) by (subst sc2 a b; cbn; lia).
   cbn [fold_left interp]. fold v.
-  destruct (prints_ext tc v sc2) as (P1 & P2 & P3 & P4 & P5); [subst sc2; cbn; lia|].
+  set (E := erase_line tc 0 sc2).
+  assert (He0 : ecol tc sc2 = 0) by (apply ecol_0; reflexivity).
+  assert (ER : forall l, nth l (rows E) [] = if Nat.eqb l line then [] else nth l (rows sc) []).
+  { intros l. subst E. rewrite erase0_ext, He0, Hrow2. subst sc2. cbn [rows]. rewrite R1.
+    destruct (Nat.eqb l line); reflexivity. }
+  assert (EL : length (rows E) = Nat.max (length (rows sc)) (S line)).
+  { subst E. cbn [erase_line rows]. rewrite length_upd, Hrow2. subst sc2. cbn [rows]. rewrite R1. reflexivity. }
+  assert (EC : crow E = line /\ ccol E = 0 /\ cvis E = false /\ hides E = 1).
+  { subst E sc2. cbn. repeat split; auto. }
+  destruct EC as (EC1 & EC2 & EC3 & EC4).
+  destruct (prints_ext tc v E) as (P1 & P2 & P3 & P4 & P5); [rewrite EC2; cbn; exact Hfit|].
   cbn zeta in P1, P2, P3, P4, P5.
-  set (X := fold_left (print tc) v sc2) in *.
+  pose proof (prints_len tc v E) as PL. rewrite EC2, EC1, EL in PL. specialize (PL Hfit).
+  set (X := fold_left (print tc) v E) in *.
   split; [|split; [reflexivity|split; [reflexivity|]]].
-  - constructor; cbn [tw_cursor tw_hidden tw_max tw_clear tw_hide crow cvis hides erase_line].
-    + rewrite P1. exact Hrow2.
-    + rewrite P3. subst sc2. cbn. rewrite V1. rewrite orb_true_r. reflexivity.
-    + rewrite P4. subst sc2. cbn. rewrite Hd1. rewrite orb_true_r. reflexivity.
-    + intros l. rewrite erase0_ext.
-      assert (He : ecol tc X = length v).
-      { unfold ecol. rewrite P2. subst sc2. cbn [ccol]. destruct (dec tc); cbn [andb]; [|reflexivity].
-        destruct (Nat.leb_spec (width tc) (0 + length v)); [lia | reflexivity]. }
-      rewrite He, P1, Hrow2. rewrite !P5, Hrow2. rewrite Nat.eqb_refl.
-      rewrite (Nat.eqb_sym line l). destruct (Nat.eqb l line) eqn:E.
-      * subst sc2. cbn [ccol]. apply overwrite_then_erase.
-      * subst sc2. cbn [rows]. rewrite R1. apply Irows.
+  - constructor; cbn [tw_cursor tw_hidden tw_max tw_clear tw_hide].
+    + rewrite P1. exact EC1.
+    + rewrite P3, EC3. rewrite orb_true_r. reflexivity.
+    + rewrite P4, EC4. rewrite orb_true_r. reflexivity.
+    + intros l. rewrite P5, EC1, EC2, !ER, Nat.eqb_refl.
+      rewrite (Nat.eqb_sym line l). destruct (Nat.eqb l line) eqn:Eq.
+      * apply overwrite_nil.
+      * apply Irows.
     + reflexivity.
     + reflexivity.
     + lia.
-  - cbn [ccol erase_line]. rewrite P2. subst sc2. reflexivity.
+    + lia.
+  - rewrite P2, EC2. reflexivity.
 Qed.
 
 (* ---------------------------------------------------------------- a history of updates *)
 Lemma Inv_ext s sc F G : (forall l, F l = G l) -> Inv s sc F -> Inv s sc G.
-Proof. intros E [? ? ? R ? ? ?]. constructor; auto. intros l. rewrite <- E. apply R. Qed.
+Proof. intros E [? ? ? R ? ? ? ?]. constructor; auto. intros l. rewrite <- E. apply R. Qed.
 
 Definition last_line (ups : list (nat * text)) (d : nat) : nat := fold_left (fun _ u => fst u) ups d.
 
@@ -128,19 +142,13 @@ Proof.
 Qed.
 
 (* ---------------------------------------------------------------- Close *)
-Lemma ecol_0 : forall s, ccol s = 0 -> ecol tc s = 0.
-Proof.
-  intros s H. unfold ecol. rewrite H. destruct (dec tc); cbn [andb]; [|reflexivity].
-  destruct (Nat.leb_spec (width tc) 0); lia.
-Qed.
-
 Lemma close_step : forall s sc F s' seg,
   Inv s sc F -> tw_close s = (s', seg) ->
   exists sc', run tc (sc, Ground) (render seg) = (sc', Ground) /\
     rows sc' = rows sc /\ crow sc' = S (tw_max s) /\ ccol sc' = 0 /\ cvis sc' = true /\
     hides sc' = hides sc.
 Proof.
-  intros s sc F s' seg [Ir Iv Ih Irows Ic Ihd Im] W.
+  intros s sc F s' seg [Ir Iv Ih Irows Ic Ihd Im Il] W.
   unfold tw_close, go_to in W. inversion W; subst s' seg; clear W.
   set (a := tw_max s - tw_cursor s). set (b := tw_cursor s - tw_max s).
   assert (Hok : Forall cmd_ok ((repeat LF a ++ repeat (Up 1%N) b ++ [CR]) ++ [LF]
@@ -187,7 +195,7 @@ Lemma C20_cursor_belief_proof : forall ups s segs,
 Proof.
   intros ups s segs Hok R.
   destruct (run_ups ups tw_new scr0 _ s segs Inv0 Hok R) as (sc & E & I & Cu & M & _).
-  exists sc. split; [exact E|]. destruct I as [Ir Iv Ih Irows _ _ _].
+  exists sc. split; [exact E|]. destruct I as [Ir Iv Ih Irows _ _ _ _].
   repeat split; auto.
   intros l. rewrite Irows. apply shown_last_write.
 Qed.
@@ -204,7 +212,7 @@ Proof.
   destruct (tw_close s) as [s' seg] eqn:Cl.
   destruct (close_step s sc _ s' seg I Cl) as (sc' & E' & Rw & Cr & Cc & Cv & Hd).
   exists sc'. cbn [snd]. rewrite concat_app, render_app, run_app, E. cbn [concat]. rewrite app_nil_r, E'.
-  split; [reflexivity|]. destruct I as [Ir Iv Ih Irows _ _ _].
+  split; [reflexivity|]. destruct I as [Ir Iv Ih Irows _ _ _ _].
   split; [|split; [|split; [|split]]].
   - intros l. rewrite Rw, Irows. apply shown_last_write.
   - rewrite Cr, M. reflexivity.
@@ -217,7 +225,7 @@ End Main.
 
 (* with AutoTrim on and a terminal at least as wide as computedCols, every well-formed text fits *)
 Lemma trim_on_fits : forall tc c ups,
-  autotrim c = true -> Z.to_nat (cols c) + (if dec tc then 1 else 0) <= width tc ->
+  autotrim c = true -> Z.to_nat (cols c) <= width tc ->
   (forall u, In u ups -> wf_text (snd u) = true) -> ups_ok tc c ups.
 Proof.
   intros tc c ups Ha Hw Hwf u Hu. split; [apply Hwf; exact Hu|].
@@ -253,10 +261,10 @@ Proof.
     cbn [concat]. rewrite !count_hide_app.
     pose proof (count_hide_goto (mktw (tw_cursor s) (tw_hidden s || tw_hide s) (tw_max s) (tw_clear s) (tw_hide s)) line) as G.
     cbn in G. rewrite !count_hide_app in G.
-    assert (Ht : count_hide (Text (write_line_no_wrap (autotrim c) (cols c) t)
-                             :: (if tw_clear s then [EraseEOL] else [])) = 0)
+    assert (Ht : count_hide (if tw_clear s then [EraseEOL] else []) = 0)
       by (destruct (tw_clear s); reflexivity).
-    cbn [app] in *. rewrite Ht.
+    assert (Ht' : count_hide [Text (write_line_no_wrap (autotrim c) (cols c) t)] = 0) by reflexivity.
+    cbn [app] in *. rewrite Ht, Ht'.
     destruct (tw_hidden s) eqn:Hh, (tw_hide s) eqn:Hd; cbn in *; repeat split; intros; try lia; auto.
     all: try (apply IH2; reflexivity).
     all: try (apply IH3; lia).
